@@ -100,6 +100,7 @@ structure RmsIn where
   epsRank : Nat := 0
   /-- `true` (the default, what the driver uses) = the rule of /repo after commits 860eec7 (F6), 655e32d (F7),
       a2dc518 (F10); `false` = the rule before that commit, kept only for the `…_prefix_refuted` theorems. -/
+  fix8 : Bool := false    -- proposed_fixes/ready/C19-F8.diff: the exponent literal is the integer 2 (exact)
   fix6 : Bool := true    -- no fusion when the scale's Cast changes its element type
   fix7 : Bool := true    -- no fusion when rank(scale) > rank(x)
   fix10 : Bool := true   -- no fusion when rank(epsilon) > rank(x)
@@ -116,31 +117,40 @@ def orCast (castPresent : Bool) (to orig : Nat) (cd : Option Nat) : Bool × Nat 
     if cd.isNone || cd == some to then (true, orig, some to) else (false, to, cd)
   else (false, orig, cd)
 
+/-- The variable bindings the matcher ends with: (x bound before its Cast?, dtype of bound x, scale bound before
+its Cast?, dtype of bound scale, `compute_dtype`).  Visiting order: `mul_order=True` → normalized (hence x) first,
+then scale; `False` → scale first. -/
+def rmsBind (i : RmsIn) : Bool × Nat × Bool × Nat × Option Nat :=
+  if i.mulOrder then
+    let (xp, xd, cd1) := orCast i.castIn i.cdt i.xdt none
+    let (sp, sd, cd2) := orCast i.scaleCast i.tdt i.sdt cd1
+    (xp, xd, sp, sd, cd2)
+  else
+    let (sp, sd, cd1) := orCast i.scaleCast i.tdt i.sdt none
+    let (xp, xd, cd2) := orCast i.castIn i.cdt i.xdt cd1
+    (xp, xd, sp, sd, cd2)
+
+/-- `RmsNormFusion.check` on those bindings (everything after the structural match). -/
+def rmsCheck (i : RmsIn) : Bool :=
+  let (_, xdtB, sPre, sdtB, cd) := rmsBind i
+  let epsOk := i.epsConst && i.epsSize == 1
+  let stash := cd.getD xdtB
+  epsOk && floatTypes.contains xdtB && floatTypes.contains sdtB && fpFloatTypes.contains stash
+    && !(i.fix10 && i.epsRank > i.xRank)
+    && !(i.fix7 && i.scaleRank > i.xRank)
+    && !(i.fix6 && i.scaleCast && sPre && i.sdt != i.tdt)
+
 /-- Decision + emitted node of `RmsNormFusion` (`_rule1`: `Mul(scale, normalized)`, `_rule2`:
 `Mul(normalized, scale)`; the matcher visits the root's inputs left to right). -/
 def rms (i : RmsIn) : String :=
   let structural :=
-    !i.innerSwap && constMatches i.powRank i.pow 2.0 && i.axes == [-1]
+    !i.innerSwap && (if i.fix8 then constMatchesExact i.powRank i.pow 2.0 else constMatches i.powRank i.pow 2.0)
+      && i.axes == [-1]
       && i.keepdims == some 1 && i.noop == some 0
   if !structural then "count=0" else
-  -- visiting order: mul_order=True → normalized (hence x) first, then scale; False → scale first
-  let (xPre, xdtB, sPre, sdtB, cd) :=
-    if i.mulOrder then
-      let (xp, xd, cd1) := orCast i.castIn i.cdt i.xdt none
-      let (sp, sd, cd2) := orCast i.scaleCast i.tdt i.sdt cd1
-      (xp, xd, sp, sd, cd2)
-    else
-      let (sp, sd, cd1) := orCast i.scaleCast i.tdt i.sdt none
-      let (xp, xd, cd2) := orCast i.castIn i.cdt i.xdt cd1
-      (xp, xd, sp, sd, cd2)
-  let epsOk := i.epsConst && i.epsSize == 1
-  let stash := cd.getD xdtB
-  if !(epsOk && floatTypes.contains xdtB && floatTypes.contains sdtB && fpFloatTypes.contains stash) then
-    "count=0"
-  else if i.fix10 && i.epsRank > i.xRank then "count=0"
-  else if i.fix7 && i.scaleRank > i.xRank then "count=0"
-  else if i.fix6 && i.scaleCast && sPre && i.sdt != i.tdt then "count=0"
-  else
+  if !rmsCheck i then "count=0" else
+    let (xPre, xdtB, sPre, _, cd) := rmsBind i
+    let stash := cd.getD xdtB
     let xn := if i.castIn && !xPre then "@Cast" else "x"
     let sn := if i.scaleCast && !sPre then "@Cast" else "scale"
     s!"count=1 SimplifiedLayerNormalization@\{axis=-1;epsilon={showF i.eps};stash_type={stash}}({xn},{sn})->1"
@@ -374,6 +384,16 @@ def mtFlags (fixed : Bool) (a b : Int) : Int × Int :=
 def fmmOut (a : FAttrs) (swapped : Bool) : String :=
   s!"count=1 FusedMatMul@com.microsoft\{{a.show}}({if swapped then "y,x" else "x,y"})->1"
 
+/-- Decision of the three batch-transpose rules, in rule order (FlippedBatch, FlippedBatchAndTranspose,
+BatchAndTranspose), for a Transpose `perm = p` in front of an operand whose `transBatch` flag is `tb`:
+`some (flipBatch, flipTrans)` or `none`. -/
+def batchRule (tb : Int) (p : List Int) : Option (Bool × Bool) :=
+  let n := p.length
+  if p == (if tb == 0 then permBatch n else permBatchInv n) then some (true, false)
+  else if p == (if tb == 0 then permRotL n else permRotR n) then some (true, true)
+  else if p == permSwap0L n && tb == 1 then some (false, true)
+  else none
+
 /-- The rule list of `fused_matmul_rule_sets()` in order; `EXC` = the rewriter raises. -/
 def fmm (i : FmmIn) : String :=
   let size := i.cstShape.foldl (· * ·) 1
@@ -420,11 +440,9 @@ def fmm (i : FmmIn) : String :=
         if i.fix4 && n < 3 then "count=0" else
         let flipB (x : FAttrs) := if pos1 then { x with transBatchA := flip x.transBatchA } else { x with transBatchB := flip x.transBatchB }
         let flipT (x : FAttrs) := if pos1 then { x with transA := flip x.transA } else { x with transB := flip x.transB }
-        -- rule order: FlippedBatch, FlippedBatchAndTranspose, BatchAndTranspose
-        if p == (if tb == 0 then permBatch n else permBatchInv n) then fmmOut (flipB a) false
-        else if p == (if tb == 0 then permRotL n else permRotR n) then fmmOut (flipT (flipB a)) false
-        else if p == permSwap0L n && tb == 1 then fmmOut (flipT a) false
-        else "count=0"
+        match batchRule tb p with
+        | some (fb, ft) => fmmOut ((if ft then flipT else id) ((if fb then flipB else id) a)) false
+        | none => "count=0"
 
 /-! ## Rotary embedding, cos/sin cache, partial rotary (`rotary_embedding.py`, `cos_sin_cache.py`) -/
 
@@ -438,6 +456,9 @@ structure RopeIn where
   posRank : Nat
   inv0 : Nat                -- leading dim of the (constant-folded) inv_freq tensor
   odd : Bool
+  cast16 : Bool := false    -- Cos/Sin are cast to float16 before use (rules `CosSinCache_cast…`); a Cast to the
+                            -- type they already have is removed by `optimize` and never reaches the rule
+  posConst : Bool := false  -- position_ids is a constant: `optimize` folds the whole cos/sin computation away
 
 /-- `RotaryEmbeddingFusion.check`; returns num_heads. -/
 def rotaryCheck (xe : Option Shape) (sl : List Int) : Option Nat :=
@@ -447,19 +468,31 @@ def rotaryCheck (xe : Option Shape) (sl : List Int) : Option Nat :=
     if s1 == 0 && e1 == half && s2 == half && e2 ≥ (d : Int) then some h else none
   | _, _ => none
 
-def rope (i : RopeIn) : String :=
+/-- The three rotary stages in the order `fuse_xformers` runs them — `fuse_rotary_embedding`, `fuse_cos_sin_cache`,
+(CSE,) `fuse_partial_rotary_embedding` — as counts, plus `num_heads`.  Each stage consumes the previous one's node:
+the cos/sin-cache rule matches the `ai.onnxruntime._fusion` RotaryEmbedding the first stage emits, the partial rule
+the `com.microsoft` RotaryEmbedding the second emits. -/
+def ropeStages (i : RopeIn) : Nat × Nat × Nat × Nat :=
   match rotaryCheck i.xe i.sl with
-  | none => "count=0/0/0"
+  | none => (0, 0, 0, 0)
   | some h =>
-    -- the cos/sin-cache pattern needs emb = Concat(freqs, freqs): impossible for an odd rotary dim
-    -- … and `inv_freq` must be a constant of shape [1, ., 1]
-    if i.odd || i.inv0 != 1 then "count=1/0/0" else
+    -- the cos/sin-cache pattern needs emb = Concat(freqs, freqs): impossible for an odd rotary dim;
+    -- `inv_freq` must be a constant of shape [1, ., 1]; constant position ids are folded away by `optimize`
+    if i.odd || i.inv0 != 1 || i.posConst then (1, 0, 0, h)
+    else if i.partialRot && i.pEnd1 == i.pStart2 then (1, 1, 1, h)
+    else (1, 1, 0, h)
+
+def rope (i : RopeIn) : String :=
+  let (c1, c2, c3, h) := ropeStages i
+  if c2 == 0 then s!"count={c1}/0/0" else
     let pos := if i.posRank == 1 then "@Unsqueeze" else "position_ids"
-    if i.partialRot && i.pEnd1 == i.pStart2 then
-      s!"count=1/1/1 RotaryEmbedding@com.microsoft\{interleaved=0;num_heads={h};rotary_embedding_dim={i.pEnd1}}(x,{pos},@Cos,@Sin)->1"
+    -- the cast rules re-apply the Cast to the rebuilt cache
+    let cs := if i.cast16 then "@Cast,@Cast" else "@Cos,@Sin"
+    if c3 == 1 then
+      s!"count=1/1/1 RotaryEmbedding@com.microsoft\{interleaved=0;num_heads={h};rotary_embedding_dim={i.pEnd1}}(x,{pos},{cs})->1"
     else
       let xn := if i.partialRot then "@Slice" else "x"
-      s!"count=1/1/0 RotaryEmbedding@com.microsoft\{interleaved=0;num_heads={h}}({xn},{pos},@Cos,@Sin)->1"
+      s!"count=1/1/0 RotaryEmbedding@com.microsoft\{interleaved=0;num_heads={h}}({xn},{pos},{cs})->1"
 
 /-! ## SDPA (`sdpa.py`) and its MHA realisation (`sdpa_via_mha.py`) -/
 
@@ -709,6 +742,9 @@ structure GqaIn where
   ilq : Int                  -- `interleaved` of the two RotaryEmbedding nodes
   ilk : Int
   maskOk : Bool              -- is the mask really the causal-mask pattern?  (NOT consulted, see below)
+  /-- proposed_fixes/ready/C19-F11.diff: no fusion when the head size (dim 3 of `q4`) is a known non-multiple of 16.
+      `false` = today's tree. -/
+  fix11 : Bool := false
 
 def dimAt (s : Option Shape) (k : Nat) : Option Dim :=
   match s with
@@ -737,6 +773,10 @@ def gqa (i : GqaIn) : String :=
   | some _ =>
     match dimAt i.q4 2, dimAt i.k4 2 with
     | some (.int h), some (.int hkv) =>
+      let badHead := match dimAt i.q4 3 with
+        | some (.int dh) => dh % 16 != 0
+        | _ => false
+      if i.fix11 && badHead then fail else
       if i.ilq != i.ilk then fail else
       s!"count=1/1 GroupQueryAttention@com.microsoft\{do_rotary=1;kv_num_heads={hkv};num_heads={h};rotary_interleaved={i.ilq}}(query,key,value,past_key,past_value,@Cast,@Add,cos,sin)->3"
     | _, _ => fail
@@ -869,6 +909,29 @@ structure PipeIn where
   s : Float                -- the scale constant
   sdpaScale : Option Float -- `scale` of the SDPA node (`none`: default 1/√Dh)
   mask : Bool
+  mask1d : Bool := false   -- the mask has rank 1: accepted by SDPA, refused by every MHA rule
+
+/-- What sits on top of a projection on its way into attention (innermost first). -/
+inductive QOp where
+  | mul   -- `Mul(·, s)` with a one-element constant `s`
+  | add   -- `Add(·, b)` with a 1-D bias `b`
+  deriving DecidableEq, Repr
+
+/-- `fuse_mha_scale`: only a `Mul` that feeds MHA *directly* (the outermost op) is folded. -/
+def peelMul (ops : List QOp) : List QOp × Bool :=
+  if ops.getLast? = some .mul then (ops.dropLast, true) else (ops, false)
+
+/-- `fuse_mha_bias`: only an `Add` that feeds MHA directly is folded. -/
+def peelAdd (ops : List QOp) : List QOp × Bool :=
+  if ops.getLast? = some .add then (ops.dropLast, true) else (ops, false)
+
+/-- **The stage order of `fuse_xformers`: `mha_scale` ONCE, then `mha_bias`** (Float-free core of `pipe`).
+Result: (what is left in front of MHA's query, was the scale folded, was the query bias folded).  `otherBias`: the
+key or value projection has a bias (then `mha_bias` fires even without a query bias). -/
+def pipeStages (ops : List QOp) (otherBias : Bool) : List QOp × Bool × Bool :=
+  let (o1, ms) := peelMul ops
+  let (o2, qb) := peelAdd o1
+  if qb || otherBias then (o2, ms, qb) else (o1, ms, false)
 
 /-- The order `fuse_xformers` runs the attention stages in — `sdpa`, `mha1/mha2`, **`mha_scale` once, then
 `mha_bias`**, then `attention` — on a block whose query is the projection with a `Mul` and/or an `Add` on top
@@ -876,33 +939,34 @@ structure PipeIn where
 particular for `q = (x·Wq)·s + b` the bias is folded and the `Mul` STAYS in front of MHA: folding it into `scale`
 afterwards would also scale the bias (MHA adds its packed bias before scaling the scores). -/
 def pipe (i : PipeIn) : String :=
-  let ops0 : List String := match i.qProj with
-    | "scale" => ["mul"]
-    | "bias" => ["add"]
-    | "scale_bias" => ["mul", "add"]
-    | "bias_scale" => ["add", "mul"]
+  -- `if mha1 == 0 and mha2 == 0: mha_bias = attention = 0` — the bias / attention stages are skipped altogether;
+  -- `mha_scale` (which runs before that test) finds no MHA node; `replace_sdpa_by_mha` realises the SDPA at the end
+  if i.mask1d then
+    let sc := match i.sdpaScale with | some v => s!";scale={showF v}" | none => ""
+    s!"count=1/0/0/0/0 MultiHeadAttention@com.microsoft\{num_heads={i.heads}{sc}}(*)->1"
+  else
+  let ops0 : List QOp := match i.qProj with
+    | "scale" => [.mul]
+    | "bias" => [.add]
+    | "scale_bias" => [.mul, .add]
+    | "bias_scale" => [.add, .mul]
     | _ => []
   let headSize : Nat := match dimAt i.qm 2 with
     | some (.int d) => d / i.heads
     | _ => 0
-  -- stage mha_scale
-  let (ops1, ms, scale) :=
-    if ops0.getLast? == some "mul" then
-      (ops0.dropLast, 1, some (i.s * (i.sdpaScale.getD (1.0 / Float.sqrt headSize.toFloat))))
-    else (ops0, 0, i.sdpaScale)
-  -- stage mha_bias
-  let (ops2, qb) := if ops1.getLast? == some "add" then (ops1.dropLast, true) else (ops1, false)
+  let (opsF, ms, qb) := pipeStages ops0 (i.kb || i.vb)
   let mb := qb || i.kb || i.vb
-  let opsF := if mb then ops2 else ops1
+  let scale : Option Float :=
+    if ms then some (i.s * (i.sdpaScale.getD (1.0 / Float.sqrt headSize.toFloat))) else i.sdpaScale
   let qn := match opsF.getLast? with
-    | some "mul" => "@Mul"
-    | some _ => "@Add"
+    | some .mul => "@Mul"
+    | some .add => "@Add"
     | none => "qm"
   let kn := if i.kb && !mb then "@Add" else "km"
   let vn := if i.vb && !mb then "@Add" else "vm"
   let sc := match scale with | some v => s!";scale={showF v}" | none => ""
   let tail := (if mb then ",@Concat" else "") ++
     (if i.mask then (if mb then ",_,mask" else ",_,_,mask") else "")
-  s!"count=1/1/{ms}/{if mb then 1 else 0}/0 MultiHeadAttention@com.microsoft\{num_heads={i.heads}{sc}}({qn},{kn},{vn}{tail})->1"
+  s!"count=1/1/{if ms then 1 else 0}/{if mb then 1 else 0}/0 MultiHeadAttention@com.microsoft\{num_heads={i.heads}{sc}}({qn},{kn},{vn}{tail})->1"
 
 end OV.C19
